@@ -192,8 +192,8 @@ class MPS:
             u, s, v = np.linalg.svd(v.reshape((Dleft*d, d**(nsites-i-1))), full_matrices=False)
             # truncate small singular values
             idx = retained_bond_indices(s, tol)
-            if len(idx) == 0 and len(s) > 0:
-                # all singular values are discarded (zero vector):
+            if len(idx) == 0 and len(s) > 0 and not np.any(s):
+                # all singular values are zero (zero vector):
                 # retain a dummy virtual bond of dimension 1
                 idx = np.array([0])
             u = u[:, idx]
